@@ -326,6 +326,7 @@ func (svr *Server) Close() error {
 	// By closing the quit channel, we are telling the server to stop accepting new
 	// connection.
 	close(svr.quit)
+	verifLife("srv.close", nil)
 
 	// We then close the net.Listener, which will force Accept() to return if it's
 	// blocked waiting for new connections.
@@ -348,6 +349,7 @@ func (svr *Server) Close() error {
 		}(svc)
 	}
 	wg.Wait()
+	verifLife("srv.closed", nil)
 
 	if svr.sessMgr != nil {
 		svr.sessMgr.Close()
